@@ -1,7 +1,7 @@
 SPECIFICATION Spec
 CONSTANTS
   Shapes <- ShapesC43q
-  MaxBlocks = 4
+  MaxBlocks = 3
   Paths <- WireOnly
   Muts <- OnlyValid
   PreKinds <- NoKinds
